@@ -122,6 +122,12 @@ Theorem C06_ordered_acquisition_never_deadlocks : forall ps sched,
 Proof. exact RWPrefProofs.ordered_commands_never_deadlock. Qed.
 Print Assumptions C06_ordered_acquisition_never_deadlocks.
 
+(* in particular: commands that lock at most one key - any mix of readers and writers - never deadlock *)
+Theorem C06_single_key_commands_never_deadlock : forall ps sched,
+  Forall (fun p => (length p <= 1)%nat) ps -> RWPref.deadlocked (RWPref.run sched (RWPref.start ps)) = false.
+Proof. exact RWPrefProofs.single_key_commands_never_deadlock. Qed.
+Print Assumptions C06_single_key_commands_never_deadlock.
+
 (* the premise is met by real command mixes: two moves in the same direction, a reader of both keys and a writer of each *)
 Example C06_ordered_nonvacuous :
   Forall RWPrefProofs.ordered_prog
